@@ -381,6 +381,18 @@ func init() {
 				}
 				return
 			}
+			var cp struct {
+				P      bool `json:"child_close_during_root_purge"`
+				Rounds int  `json:"rounds"`
+				Kids   int  `json:"children"`
+			}
+			if json.Unmarshal(ctx.Replay, &cp) == nil && cp.P {
+				ctx.Case(cp, "", "child-close-during-root-purge", "")
+				if f := c09ClosePurge(cp.Rounds*4, cp.Kids); f != "" {
+					ctx.Fail("no_panic_no_deadlock", f, cp, nil)
+				}
+				return
+			}
 			var pa struct {
 				P    bool `json:"first_use_panics_then_more_use"`
 				Kind int  `json:"kind"`
@@ -503,6 +515,14 @@ func init() {
 			}
 			ctx.Res.Evaluations += rounds
 			ctx.Res.Histogram["uncontrolled-first-use-rounds"] += rounds
+		}
+		// child scopes closed by several goroutines while the root's Close drops them
+		{
+			cs := map[string]interface{}{"child_close_during_root_purge": true, "rounds": ctx.N(60, 600), "children": 400}
+			ctx.Case(cs, "", "child-close-during-root-purge", "")
+			if f := c09ClosePurge(ctx.N(60, 600), 400); f != "" {
+				ctx.Fail("no_panic_no_deadlock", f, cs, nil)
+			}
 		}
 		// a first use panics inside the library's first-use path (reporter allocation, rejected bucket
 		// type), the caller recovers: the scope stays usable
